@@ -10,9 +10,15 @@ One task per shipped generator class found in the catalogue (first tiny/awkward 
 manual entries for components built from caller-owned arrays.  For each entry, with a fresh shared component per
 history, two environments `a` and `b` are built around it and ALL sequences of length <= L over
 
-    a.reset(k0)  |  b.reset(k1)  |  jit(a.reset)(k1)  |  a.step(s0, a0)          (eager unless marked jit)
+    a.reset(k0) | b.reset(k1) | jit(a.reset)(k1) | a.step(s0,a0) | a.step(s1,a1) | b.step(t0,b0)   (eager unless marked jit)
 
-are run (L = 2; 3 in the thorough tier for cheap-eager families), s0 = the reference reset state for k0.  After
+are run (L = 2; 3 in the thorough tier for cheap-eager families).  s0 / t0 = the reference reset states of a / b for
+k0 / k1, a0 / b0 = the first action that keeps them alive, s1 = the reference successor of (s0, a0), a1 = the first
+action that keeps s1 alive or, if every action ends the episode there, the one with the smallest non-zero |reward|
+(the episode-completing one), so that a step that pays the final reward is part of the alphabet.
+Shared reward functions: the same is done for ONE reward-function object handed to two environments of DIFFERENT
+sizes (a reward function that remembers a size, a normaliser or an episode flag of the first environment it served
+couples them).  After
 every call the result must equal the reference (the same call under jit on environments whose components are
 their own), the arguments must be intact, and every result object handed out earlier in the history must still be
 readable and hold the values it had when returned (a later traced call writing tracers into an object an eager
@@ -37,7 +43,7 @@ from mc.c02_core import PID, SLOW_HISTORY, Held, action_set, as_jnp, canon, guar
 from mc.engine import leaf_diff
 from mc.report import Violation
 
-CALLS = ("a.reset(k0)", "b.reset(k1)", "jit a.reset(k1)", "a.step(s0,a0)")
+CALLS = ("a.reset(k0)", "b.reset(k1)", "jit a.reset(k1)", "a.step(s0,a0)", "a.step(s1,a1)", "b.step(t0,b0)")
 K0, K1 = 0, 1
 
 
@@ -80,6 +86,41 @@ def entries() -> List[Dict[str, Any]]:
     out.append(dict(name="shared-pac_man.AsciiGenerator", family="pac_man", shared={},
                     gen="M.pac_man.generator.AsciiGenerator(M.pac_man.constants.DEFAULT_MAZE)",
                     env_a="PacMan(generator=GEN, time_limit=3)", env_b="PacMan(generator=GEN, time_limit=3)", share="generator"))
+    # ONE reward-function object serving two environments of different sizes
+    for fam, rw, env_a, env_b in [
+        ("tsp", "R.tsp.SparseReward()", "TSP(G.tsp.UniformGenerator(2), reward_fn=GEN)", "TSP(G.tsp.UniformGenerator(3), reward_fn=GEN)"),
+        ("tsp", "R.tsp.DenseReward()", "TSP(G.tsp.UniformGenerator(2), reward_fn=GEN)", "TSP(G.tsp.UniformGenerator(3), reward_fn=GEN)"),
+        ("cvrp", "R.cvrp.SparseReward()", "CVRP(G.cvrp.UniformGenerator(1, 10, 5), reward_fn=GEN)",
+         "CVRP(G.cvrp.UniformGenerator(3, 10, 5), reward_fn=GEN)"),
+        ("cvrp", "R.cvrp.DenseReward()", "CVRP(G.cvrp.UniformGenerator(1, 10, 5), reward_fn=GEN)",
+         "CVRP(G.cvrp.UniformGenerator(3, 10, 5), reward_fn=GEN)"),
+        ("knapsack", "R.knapsack.SparseReward()", "Knapsack(G.knapsack.RandomGenerator(2, 5.0), reward_fn=GEN)",
+         "Knapsack(G.knapsack.RandomGenerator(4, 1.0), reward_fn=GEN)"),
+        ("knapsack", "R.knapsack.DenseReward()", "Knapsack(G.knapsack.RandomGenerator(2, 5.0), reward_fn=GEN)",
+         "Knapsack(G.knapsack.RandomGenerator(4, 1.0), reward_fn=GEN)"),
+        ("flat_pack", "R.flat_pack.CellDenseReward()", "FlatPack(G.flat_pack.RandomFlatPackGenerator(1, 2), reward_fn=GEN)",
+         "FlatPack(G.flat_pack.RandomFlatPackGenerator(2, 2), reward_fn=GEN)"),
+        ("flat_pack", "R.flat_pack.BlockDenseReward()", "FlatPack(G.flat_pack.RandomFlatPackGenerator(1, 2), reward_fn=GEN)",
+         "FlatPack(G.flat_pack.RandomFlatPackGenerator(2, 2), reward_fn=GEN)"),
+        ("sliding_tile_puzzle", "R.sliding_tile_puzzle.DenseRewardFn()",
+         "SlidingTilePuzzle(G.sliding_tile_puzzle.RandomWalkGenerator(2, 1), reward_fn=GEN, time_limit=3)",
+         "SlidingTilePuzzle(G.sliding_tile_puzzle.RandomWalkGenerator(3, 1), reward_fn=GEN, time_limit=3)"),
+        ("sliding_tile_puzzle", "R.sliding_tile_puzzle.SparseRewardFn()",
+         "SlidingTilePuzzle(G.sliding_tile_puzzle.RandomWalkGenerator(2, 1), reward_fn=GEN, time_limit=3)",
+         "SlidingTilePuzzle(G.sliding_tile_puzzle.RandomWalkGenerator(3, 1), reward_fn=GEN, time_limit=3)"),
+        ("connector", "R.connector.DenseRewardFn()", "Connector(G.connector.UniformRandomGenerator(3, 1), reward_fn=GEN, time_limit=3)",
+         "Connector(G.connector.UniformRandomGenerator(4, 2), reward_fn=GEN, time_limit=3)"),
+        ("sokoban", "R.sokoban.DenseReward()", "Sokoban(G.sokoban.SimpleSolveGenerator(), reward_fn=GEN, time_limit=3)",
+         "Sokoban(G.sokoban.ToyGenerator(), reward_fn=GEN, time_limit=2)"),
+        ("sokoban", "R.sokoban.SparseReward()", "Sokoban(G.sokoban.SimpleSolveGenerator(), reward_fn=GEN, time_limit=3)",
+         "Sokoban(G.sokoban.ToyGenerator(), reward_fn=GEN, time_limit=2)"),
+        ("minesweeper", "R.minesweeper.DefaultRewardFn(1.0, 0.0, 0.0)",
+         "Minesweeper(G.minesweeper.UniformSamplingGenerator(2, 2, 1), reward_function=GEN)",
+         "Minesweeper(G.minesweeper.UniformSamplingGenerator(3, 4, 2), reward_function=GEN)"),
+    ]:
+        cls = rw.split("(")[0].replace("R.", "")
+        out.append(dict(name=f"shared-reward-{cls}", family=fam, shared={}, gen=rw, env_a=env_a, env_b=env_b,
+                        share="generator", quick=fam not in ("connector", "sokoban", "flat_pack", "sliding_tile_puzzle")))
     # caller-owned database handed to two generators (and hence two environments)
     out.append(dict(name="shared-sudoku.DatabaseGenerator-database", family="sudoku",
                     shared={"DB": "INJ.sudoku_boards_int32()"}, gen="G.sudoku.DatabaseGenerator(DB)",
@@ -115,42 +156,63 @@ def _build(e: Dict[str, Any], own: bool) -> Tuple[Any, Any, Dict[str, Any], Dict
     return a, b, sh, snap
 
 
-def _reference(e: Dict[str, Any]) -> Tuple[Dict[str, Any], Any, Any]:
+def _alive_action(step_j: Any, state: Any, actions: np.ndarray) -> int:
+    """first action that keeps `state` alive; if every action ends the episode, the one with the smallest non-zero
+    |reward| (the episode-completing step rather than the penalised invalid one); else 0"""
+    best, best_r = 0, None
+    for i in range(min(len(actions), 16)):
+        ts = canon(step_j(state, jnp.asarray(actions[i])))[1]
+        if int(np.asarray(ts.step_type)) != 2:
+            return i
+        r = float(np.abs(np.asarray(ts.reward, np.float64)).sum())
+        if r > 0 and (best_r is None or r < best_r):
+            best, best_r = i, r
+    return best
+
+
+def _reference(e: Dict[str, Any]) -> Tuple[Dict[str, Any], Dict[str, Any]]:
     a, b, _, _ = _build(e, own=True)
-    actions, _ = action_set(a, 64)
+    acts_a, _ = action_set(a, 64)
+    acts_b, _ = action_set(b, 64)
     ra = canon(jax.jit(a.reset)(prng(K0)))
     ra1 = canon(jax.jit(a.reset)(prng(K1)))
     rb = canon(jax.jit(b.reset)(prng(K1)))
-    s0 = ra[0]
-    # a0: first action that keeps s0 alive (else 0)
-    step_j = jax.jit(a.step)
-    a0 = 0
-    for i in range(min(len(actions), 16)):
-        if int(np.asarray(canon(step_j(s0, jnp.asarray(actions[i])))[1].step_type)) != 2:
-            a0 = i
-            break
-    st = canon(step_j(s0, jnp.asarray(actions[a0])))
-    exp = {"a.reset(k0)": ra, "b.reset(k1)": rb, "jit a.reset(k1)": ra1, "a.step(s0,a0)": st}
-    return exp, s0, actions[a0]
+    s0, t0 = ra[0], rb[0]
+    step_a, step_b = jax.jit(a.step), jax.jit(b.step)
+    a0 = _alive_action(step_a, s0, acts_a)
+    st = canon(step_a(s0, jnp.asarray(acts_a[a0])))
+    s1 = st[0]
+    a1 = _alive_action(step_a, s1, acts_a)
+    st1 = canon(step_a(s1, jnp.asarray(acts_a[a1])))
+    b0 = _alive_action(step_b, t0, acts_b)
+    stb = canon(step_b(t0, jnp.asarray(acts_b[b0])))
+    exp = {"a.reset(k0)": ra, "b.reset(k1)": rb, "jit a.reset(k1)": ra1, "a.step(s0,a0)": st, "a.step(s1,a1)": st1,
+           "b.step(t0,b0)": stb}
+    args = {"s0": s0, "a0": acts_a[a0], "s1": s1, "a1": acts_a[a1], "t0": t0, "b0": acts_b[b0]}
+    return exp, args
 
 
-def _call(name: str, a: Any, b: Any, s0: Any, a0: Any) -> Tuple[Any, List[str]]:
+def _call(name: str, a: Any, b: Any, args: Dict[str, Any]) -> Tuple[Any, List[str]]:
     if name == "a.reset(k0)":
         return guarded(a.reset, prng(K0))
     if name == "b.reset(k1)":
         return guarded(b.reset, prng(K1))
     if name == "jit a.reset(k1)":
         return guarded(jax.jit(lambda k: a.reset(k)), prng(K1))
-    return guarded(a.step, as_jnp(s0), jnp.asarray(a0))
+    if name == "a.step(s0,a0)":
+        return guarded(a.step, as_jnp(args["s0"]), jnp.asarray(args["a0"]))
+    if name == "a.step(s1,a1)":
+        return guarded(a.step, as_jnp(args["s1"]), jnp.asarray(args["a1"]))
+    return guarded(b.step, as_jnp(args["t0"]), jnp.asarray(args["b0"]))
 
 
-def run_history(e: Dict[str, Any], seq: Tuple[str, ...], exp: Dict[str, Any], s0: Any, a0: Any
+def run_history(e: Dict[str, Any], seq: Tuple[str, ...], exp: Dict[str, Any], args: Dict[str, Any]
                 ) -> Tuple[int, Optional[Tuple[int, str, List[str]]]]:
     a, b, sh, snap = _build(e, own=False)
     held = Held()
     for n, name in enumerate(seq):
         try:
-            out, mut = _call(name, a, b, s0, a0)
+            out, mut = _call(name, a, b, args)
         except Exception as ex:  # noqa: BLE001
             return n + 1, (n, "shared-component-couples-instances", [f"call raised {type(ex).__name__}: {str(ex)[:300]}"])
         if mut:
@@ -184,13 +246,18 @@ def check_entry(entry: Dict[str, Any], tier: str, seed: int, model: str = "") ->
     t0 = time.time()
     e = entry
     L = 3 if (tier == "thorough" and e["family"] not in SLOW_HISTORY) else 2
-    exp, s0, a0 = _reference(e)
+    exp, args = _reference(e)
     viol: List[Violation] = []
     n_by: Dict[str, int] = {}
     n_calls = 0
-    seqs = list(itertools.product(CALLS, repeat=L))
+    # slow-eager families (static table): the four-call alphabet without the second step of a and the step of b
+    # quick tier: the six-call alphabet only where the second environment's step matters (shared reward functions,
+    # shared argument arrays) and the family is cheap to run eagerly; otherwise the four-call alphabet
+    wide = e["name"].startswith("shared-reward") or e["share"] == "arguments"
+    calls = CALLS if (tier == "thorough" or (wide and e["family"] not in SLOW_HISTORY)) else CALLS[:4]
+    seqs = list(itertools.product(calls, repeat=L))
     for seq in seqs:
-        n, bad = run_history(e, seq, exp, s0, a0)
+        n, bad = run_history(e, seq, exp, args)
         n_calls += n
         if bad:
             i, what, d = bad
@@ -203,11 +270,11 @@ def check_entry(entry: Dict[str, Any], tier: str, seed: int, model: str = "") ->
                                        "signature": sig, "model": e["name"]}))
         if len(seqs) > 16:
             jax.clear_caches()
-    n_hist = sum(len(CALLS) ** l for l in range(1, L + 1))
+    n_hist = sum(len(calls) ** l for l in range(1, L + 1))
     return {
         "model": e["name"], "family": e["family"], "kind": "shared-component", "ctor": e["env_a"].replace("GEN", e["gen"]),
         "states": n_hist, "transitions": n_calls, "validated": n_calls, "exhaustive": True,
-        "history_length": L, "history_alphabet": list(CALLS), "shares": e["share"],
+        "history_length": L, "history_alphabet": list(calls), "shares": e["share"],
         "vacuity": {"n_shared_histories": n_hist, "n_shared_calls": n_calls, "n_eager": n_calls},
         "violations": viol, "violation_counts": n_by, "total_s": round(time.time() - t0, 2),
         "samples": [{"model": e["name"], "what": "history on two environments sharing a component", "history": list(seqs[len(seqs) // 3])}],
@@ -216,8 +283,8 @@ def check_entry(entry: Dict[str, Any], tier: str, seed: int, model: str = "") ->
 
 def replay_case(r: Dict[str, Any]) -> int:
     e = r["entry"]
-    exp, s0, a0 = _reference(e)
-    n, bad = run_history(e, tuple(r["history"]), exp, s0, a0)
+    exp, args = _reference(e)
+    n, bad = run_history(e, tuple(r["history"]), exp, args)
     if bad:
         print(f"  history {r['history']} on environments sharing the {e['share']}: call #{bad[0] + 1} -> {bad[1]}: {bad[2][:6]}")
         return 1
